@@ -26,7 +26,7 @@ EXPLANATION = (
     "hands every input edge to the kernel (no first-seen de-duplication) so that the kernel's duplicate-edge rule "
     "(minimum) matches the Python implementation's; undirected expansion mirrors both orientations; (O5) routing - "
     "the decorator forwards *args/**kwargs unchanged to either arm and falls back to Python when no adapter is "
-    "registered; (O6) Kahn's bookkeeping in the Python topological sort counts every stored edge occurrence once (the kernel does); (G3) no Python implementation keeps state between calls. (O7) both PageRank loops compare the same measure of change with the tolerance. NOT decided: algorithmic equivalence of the Rust kernels and the Python bodies (cross-language "
+    "registered; (O6) Kahn's bookkeeping in the Python topological sort counts every stored edge occurrence once (the kernel does); (G3) no Python implementation keeps state between calls. (O7) both PageRank loops compare the same measure of change with the tolerance. (O8) the Python edge-list wrappers build one successor list per node from every input edge and delegate with it. NOT decided: algorithmic equivalence of the Rust kernels and the Python bodies (cross-language "
     "semantics)."
 )
 
@@ -351,6 +351,40 @@ def run(ctx: Ctx):
     tpr = ast.unparse(prf.node)
     ctx.ob("C12-O7", "R18 SIBLING-AGREEMENT (expression)", prf, "the measure starts at zero in every iteration and is tested strictly against tol after the sweep", "max_diff = 0.0" in tpr and "if max_diff < tol:" in tpr and bool(re.search(r"if\s+diff\s*<\s*tol", prk)), "", node=prf.node)
 
+    # O8 the Python edge-list wrappers hand the generic routine exactly the graph the kernel receives: one successor list
+    # per node, every input edge appended (duplicates kept), nodes range(n_nodes)
+    WRAPPERS = {
+        "pagerank_edges": ("pagerank", "pagerank"),
+        "strongly_connected_components_edges": ("scc", "strongly_connected_components"),
+        "topological_sort_edges": ("scc", "topological_sort"),
+        "dijkstra_edges": ("dijkstra", "dijkstra"),
+        "bfs_edges": ("bfs", "bfs"),
+        "dfs_edges": ("bfs", "dfs"),
+    }
+    n_wr = 0
+    for wname, (wmod, generic) in sorted(WRAPPERS.items()):
+        wf = ctx.func(wmod, wname)
+        n_wr += 1
+        wcfg = cfg_of(wf.node)
+        wgv = GuardView(wcfg)
+        init = [n for n in own_nodes(wf.node) if isinstance(n, (ast.Assign, ast.AnnAssign)) and ast.unparse(n.targets[0] if isinstance(n, ast.Assign) else n.target) == "adj"]
+        apps = [n for n in own_nodes(wf.node) if isinstance(n, ast.Call) and isinstance(n.func, ast.Attribute) and n.func.attr == "append" and ast.unparse(n.func.value).startswith("adj[")]
+        ok = len(init) == 1 and ast.unparse(init[0].value) == "[[] for _ in range(n_nodes)]" and len(apps) >= 1
+        why = ""
+        for a in apps:
+            an = wcfg.stmt_node_containing(a)
+            lp = an.loop
+            at = {x for x in wgv.guard_atoms(an, stable_only=False, after_loops=False) if not x.startswith("IN-LOOP:")}
+            inside = lp is not None and lp.kind == "for" and ast.unparse(lp.ast.iter) == "edges"
+            tests_in_loop = [b for b in wcfg.guards(an) if b.test.kind == "test" and b.test.loop is lp]
+            if not inside or tests_in_loop:
+                ok, why = False, f"`{ast.unparse(a)}` is conditional or outside the loop over the input edges"
+        ctx.ob("C12-O8", "R18 SIBLING-AGREEMENT (policy)", wf, f"{wname} builds one successor list per node and appends every input edge", ok, why, node=wf.node)
+        dele = [n for n in own_nodes(wf.node) if isinstance(n, ast.Call) and isinstance(n.func, ast.Name) and n.func.id == generic]
+        okd = len(dele) >= 1 and all(any(ast.unparse(a_) in ("lambda s: adj[s]",) for a_ in d.args) for d in dele)
+        ctx.ob("C12-O8", "R18 SIBLING-AGREEMENT (policy)", wf, f"{wname} delegates to {generic} with the successor lists it built", okd, "", node=dele[0] if dele else wf.node)
+    ctx.floor("Python edge-list wrappers", n_wr, 6)
+
     # O6 the Rust kernel counts every occurrence of an edge; so must the Python bookkeeping
     from .c14 import check_kahn
 
@@ -428,6 +462,11 @@ def _v_pagerank_max_norm(tree):
     M.replace_stmt(g, lambda s: isinstance(s, ast.AugAssign) and M.src_has(s.value, "abs(new_scores"), M.stmts("max_diff = max(max_diff, abs(new_scores[v] - scores[v]))"))
 
 
+def _v_scc_wrapper_dedups(tree):
+    g = M.find_func(tree, "strongly_connected_components_edges")
+    M.replace_stmt(g, lambda s: isinstance(s, ast.Expr) and M.src_is(s.value, "adj[u].append(v)"), M.stmts("if v not in adj[u]:\n    adj[u].append(v)"))
+
+
 def _v_adjacency_memo(tree):
     g = M.find_func(tree, "dijkstra_edges")
     M.replace_stmt(g, lambda s: isinstance(s, ast.For) and M.src_is(s.iter, "edges"), [])
@@ -478,6 +517,7 @@ VARIANTS = [
     M.Variant("topological_sort keeps successor sets but counts every edge occurrence in the in-degree (seed C12-D)", "solvor/scc.py", _v_topo_successor_sets, "C12-O6"),
     M.Variant("Python floyd_warshall skips self loops, the kernel does not (seed C12-E)", "solvor/floyd_warshall.py", _v_fw_skip_self_loops, "C12-O4"),
     M.Variant("Python PageRank stops on the largest single change, the kernel on the total change (original defect)", "solvor/pagerank.py", _v_pagerank_max_norm, "C12-O7"),
+    M.Variant("Python SCC wrapper de-duplicates successors", "solvor/scc.py", _v_scc_wrapper_dedups, "C12-O8"),
     M.Variant("twin: reformat adapters", AD, _t_reformat, None),
     M.Variant("twin: reformat rust/__init__", RI, _t_reformat, None),
 ]
